@@ -25,6 +25,7 @@ Window(tool, param, nsrc) ==
     [] tool \in {"nlargest", "nsmallest"} -> param    \* the n best so far
     [] tool = "merge" -> nsrc                         \* one head per source
     [] tool = "pairwise" -> 1                         \* the previous item
+    [] tool = "groupby" -> 1                          \* the look-ahead item
     [] tool \in {"accumulate", "reduce", "sum", "min", "max"} -> 1   \* the running value / best
     [] tool = "zip_longest" -> 0
     [] OTHER -> 0
